@@ -70,12 +70,13 @@ props["C09"] = {
 
 props["C15"] = {
     "level": "model_checking", "validate": 6,
-    "unreached_ok": ["plan-ends-at-target"],
+    "unreached_ok": ["plan-ends-at-target", "checkpoint-lock-released-after-read", "snapshot-advertises-local-position", "snapshot-range-is-1-to-pos", "snapshot-size-is-size-at-pos"],
     "runs": [
         run("root", "VxC08Time", {"N": 3, "M": 5}, {"N": 4, "M": 6}),
         run("root", "VxC15Monotone", {"N": 3, "M": 4}, {"N": 4, "M": 4}),
         run("root", "VxC15Exact", {"N": 4}, {"N": 6}),
         run("file", "VxC15FileTimestamp", {}, {}, note="file backend: listed CreatedAt = LTX header timestamp"),
+        run("root", "VxC15SnapshotStamp", {}, {}, note="a snapshot that waited for the executor behind a sync round is stamped no earlier than the TXID it covers (interleaving point: lockExec)"),
     ],
     "assumptions": [
         "replication instants are non-decreasing in TXID (monotone clock)",
@@ -109,6 +110,7 @@ props["C06"] = {
     "runs": [
         run("root", "VxC06Compact", {"K": 2, "C": 3, "DST": 1}, {"K": 3, "C": 3, "DST": 1}),
         run("root", "VxC06Compact", {"K": 2, "C": 2, "DST": 2}, {"K": 2, "C": 3, "DST": 2}, note="level 1 -> level 2, multi-TXID inputs"),
+        run("root", "VxC06DBCompact", {"N": 3}, {"N": 4}, note="DB.Compact(1) with the DB's own compactor wiring and a local directory that is a suffix of / one ahead of the replica, followed by level-0 retention"),
         run("root", "VxC02Snapshot", {}, {}, note="level-9 snapshots (DB.Snapshot's page source): size and every page equal the state at the advertised position, also after a shrink (shared with C02)"),
     ],
     "assumptions": [
@@ -298,6 +300,7 @@ props["C14"] = {
         run("root", "VxC14Init", {}, {}),
         run("root", "VxC14Checkpoint", {}, {}),
         run("root", "VxC14Close", {}, {}),
+        run("root", "VxC14EnsureExists", {}, {}, note="start-up restore never touches an existing source database, its -wal or -shm"),
     ],
     "assumptions": [
         "symsql: every database/sql call db.go makes (BeginTx, ExecContext, QueryRowContext/Scan, Tx.ExecContext/Rollback/Commit, Close) is handed to an environment handler that may fail it (SQLITE_BUSY) and that records statements and transaction lifetimes; natively the same handler sits behind a database/sql driver",
@@ -333,6 +336,7 @@ props["C03"] = {
     "runs": [
         run("root", "VxC03Sync", {}, {}),
         run("root", "VxC03Sidecar", {}, {}),
+        run("root", "VxC03Baseline", {}, {}, note="baseline fetch (checkDatabaseBehindReplica) killed at every file-system operation, then restarted"),
         run("file", "VxC03FileWrite", {}, {}),
         run("root", "VxC16Follow", {}, {}, note="follower killed at every file-system operation (shared with C16)"),
     ],
@@ -431,6 +435,7 @@ rewrites = [
     {"file": "db.go", "from": "func (db *DB) setPersistWAL(", "to": "func (db *DB) setPersistWALReal("},
     {"file": "db.go", "from": "func (db *DB) verifyAndSyncWithExecutor(", "to": "func (db *DB) verifyAndSyncWithExecutorReal("},
     {"file": "db.go", "from": "func (db *DB) sync(", "to": "func (db *DB) syncReal("},
+    {"file": "db.go", "from": "func (db *DB) lockExec(", "to": "func (db *DB) lockExecReal("},
 ]
 
 def write_manifest():
